@@ -5,8 +5,8 @@ import TTV.Lemmas.TagSet
 namespace TTV.Lemmas.TagViews
 open TTV.Result TTV.Lemmas.TagSetL
 
-/-- what matters for tags: run start, test start / stop, tag change, outcome (of which test) -/
-inductive TEv | run | start (t : Nat) | stop (t : Nat) | tags (n g : TagSet) | out (t : Nat)
+/-- what matters for tags: run start / stop, test start / stop, tag change, outcome (of which test) -/
+inductive TEv | run | stopRun | start (t : Nat) | stop (t : Nat) | tags (n g : TagSet) | out (t : Nat)
 deriving DecidableEq, Repr
 
 def tev : Call → Option TEv
@@ -15,12 +15,13 @@ def tev : Call → Option TEv
   | .stopTest t => some (.stop t)
   | .tags n g => some (.tags n g)
   | .add _ t _ => some (.out t)
+  | .stopTestRun => some .stopRun
   | _ => none
 
 def tevs (h : List Call) : List TEv := h.filterMap tev
 
 @[simp] theorem tev_run : tev .startTestRun = some .run := rfl
-@[simp] theorem tev_stopRun : tev .stopTestRun = none := rfl
+@[simp] theorem tev_stopRun : tev .stopTestRun = some .stopRun := rfl
 @[simp] theorem tev_start (t : Nat) : tev (.startTest t) = some (.start t) := rfl
 @[simp] theorem tev_stop (t : Nat) : tev (.stopTest t) = some (.stop t) := rfl
 @[simp] theorem tev_tags (n g : TagSet) : tev (.tags n g) = some (.tags n g) := rfl
@@ -33,7 +34,7 @@ def tevs (h : List Call) : List TEv := h.filterMap tev
 
 @[simp] theorem tevs_nil : tevs [] = [] := rfl
 @[simp] theorem tevs_c_run (cs : List Call) : tevs (.startTestRun :: cs) = .run :: tevs cs := rfl
-@[simp] theorem tevs_c_stopRun (cs : List Call) : tevs (.stopTestRun :: cs) = tevs cs := rfl
+@[simp] theorem tevs_c_stopRun (cs : List Call) : tevs (.stopTestRun :: cs) = .stopRun :: tevs cs := rfl
 @[simp] theorem tevs_c_start (t : Nat) (cs : List Call) : tevs (.startTest t :: cs) = .start t :: tevs cs := rfl
 @[simp] theorem tevs_c_stop (t : Nat) (cs : List Call) : tevs (.stopTest t :: cs) = .stop t :: tevs cs := rfl
 @[simp] theorem tevs_c_tags (n g : TagSet) (cs : List Call) : tevs (.tags n g :: cs) = .tags n g :: tevs cs := rfl
@@ -53,6 +54,7 @@ def stepT (ctx : TagCtx) : TEv → TagCtx
   | .stop _ => ctx.pop
   | .tags n g => ctx.change n g
   | .out _ => ctx
+  | .stopRun => ctx
 
 /-- (test, current tags) at each outcome -/
 def seenT : TagCtx → List TEv → List (Nat × TagSet)
@@ -64,7 +66,7 @@ def outsT (e : List TEv) : List (Nat × TagSet) := e.filterMap fun | .out t => s
 
 /-! ### views -/
 def etodVT (caps : Caps) (e : List TEv) : List TEv :=
-  e.filter fun | .tags _ _ => caps.tags | .run => caps.startRun | _ => true
+  e.filter fun | .tags _ _ => caps.tags | .run => caps.startRun | .stopRun => caps.startRun | _ => true
 
 def taggerVT (n g : TagSet) (e : List TEv) : List TEv :=
   e.flatMap fun | .start t => [.start t, .tags n g] | x => [x]
@@ -82,11 +84,13 @@ def tfrNext (a : TfrAbs) : TEv → TfrAbs
   | .stop _ => { a with inTest := false, t := (0, 0) }
   | .tags n g => if a.inTest then { a with t := mergeTags a.t (n, g) } else { a with g := mergeTags a.g (n, g) }
   | .out _ => { a with t := (0, 0) }
+  | .stopRun => a
 
 def tagsIf (p : TagSet × TagSet) : List TEv := if anyTags p then [.tags p.1 p.2] else []
 
 def tfrEmitT (a : TfrAbs) : TEv → List TEv
   | .run => [.run]
+  | .stopRun => [.stopRun]
   | .out t => [.start t] ++ tagsIf a.g ++ tagsIf a.t ++ [.out t, .stop t]
   | _ => []
 
@@ -109,6 +113,7 @@ def wfT : Nat → Nat → List TEv → Bool
     | .out t => (p == 1 && t == cur && wfT 2 t e) || (p == 0 && wfT 3 t e)
     | .stop t => (p == 2 || p == 3) && t == cur && wfT 0 0 e
     | .run => p == 0 && wfT p cur e
+    | .stopRun => p == 0 && wfT p cur e
     | .tags _ _ => p != 3 && wfT p cur e
 
 def disjT : TEv → Bool
@@ -181,6 +186,11 @@ theorem tfr_seen : ∀ (e : List TEv) (p cur : Nat) (R : TagCtx) (a : TfrAbs),
         obtain ⟨rfl, hw⟩ := hw
         simp only [tfrVT, tfrEmitT, tfrNext, List.singleton_append, seenT, stepT]
         exact tfr_seen e 0 cur {} {} (mk0 rfl rfl rfl rfl) hw hd.2
+      | stopRun =>
+        simp only [wfT, Bool.and_eq_true, beq_iff_eq] at hw
+        obtain ⟨rfl, hw⟩ := hw
+        simp only [tfrVT, tfrEmitT, tfrNext, List.singleton_append, seenT, stepT]
+        exact tfr_seen e 0 cur R a hr hw hd.2
       | start t =>
         simp only [wfT, Bool.and_eq_true, beq_iff_eq] at hw
         obtain ⟨rfl, hw⟩ := hw
@@ -249,6 +259,7 @@ theorem tfrVT_wf : ∀ (e : List TEv) (a : TfrAbs), wfT 0 0 (tfrVT a e) = true
   | x :: e, a => by
       cases x <;> simp only [tfrVT, tfrEmitT, List.nil_append, List.singleton_append, List.append_assoc, List.cons_append]
       · simp [wfT, tfrVT_wf e]
+      · simp [wfT, tfrVT_wf e]
       · exact tfrVT_wf e _
       · exact tfrVT_wf e _
       · exact tfrVT_wf e _
@@ -265,6 +276,7 @@ theorem tfrNext_disj (a : TfrAbs) (x : TEv) (hg : a.g.1 &&& a.g.2 = 0) (ht : a.t
     · exact ⟨hg, merge_disjoint _ n g ht⟩
     · exact ⟨merge_disjoint _ n g hg, ht⟩
   | run => exact ⟨zero_and_zero, zero_and_zero⟩
+  | stopRun => exact ⟨hg, ht⟩
   | start t => exact ⟨hg, ht⟩
   | stop t => exact ⟨hg, zero_and_zero⟩
   | out t => exact ⟨hg, zero_and_zero⟩
